@@ -4,7 +4,7 @@
 From Coq Require Import List Arith Reals Ring Lia.
 From PV Require Import C07.CxBase C07.RealOps C07.GatesGen C07.MomentsModel C07.GatesModel
   C07.SumLemmas C07.MomentsProofs C07.MatF C07.StepK C07.SeqProofs C07.QuadProofs C07.GatesProofs
-  C07.CxReal C07.RealSeq C07.RealQuad.
+  C07.CxReal C07.RealSeq C07.RealQuad C07.EmbedSympl.
 Import ListNotations.
 
 Lemma step_is_lstep : forall {B : Type} (o : Ops B) d i s,
@@ -45,4 +45,78 @@ Proof.
   - intros i j Hi Hj. apply SrR_real; assumption.
   - intros i Hi. apply (step_mean_real d _ st s2h modes _ _ Hv Hb HC HG Hl i Hi).
   - intros i j Hi Hj. apply (step_cov_real d _ st hbar modes _ _ Hv Hb HC HG i j Hi Hj).
+Qed.
+
+(* ---- every built-in gate's embedded ladder-operator transformation is symplectic, for all real
+   parameters, every d and every duplicate-free tuple of modes: in the complex form
+   S diag(I,-I) S^dagger = diag(I,-I) and in the real xxpp form Sr Omega Sr^T = Omega *)
+Theorem builtin_gate_symplectic_real :
+  forall d g theta phi int_ ext r s modes,
+  modes_ok d modes -> length modes = n_modes g ->
+  let e := env_R theta phi int_ ext r s in
+  let P := passive_block ROps g e in
+  let Am := active_or_nil g e in
+  eqm (d + d) (cong RC (d + d) (Sgate RC d modes P Am) (Omc RC d)) (Omc RC d) /\
+  eqm (d + d) (mmf RC (d + d) (mmf RC (d + d) (SrR d modes P Am) (Om RC d)) (trf (SrR d modes P Am)))
+      (Om RC d).
+Proof.
+  intros d g theta phi int_ ext r s modes Hm Hlen e P Am.
+  assert (Hok : op_ok d (OGate g e modes)).
+  { simpl. split; [|split; assumption]. exists theta, phi, int_, ext, r, s. reflexivity. }
+  pose proof (op_ok_valid d _ Hok) as Hv.
+  assert (Hb : step_blocks (lop_of ROps (OGate g e modes)) = Some (modes, P, Am)).
+  { unfold P, Am, active_or_nil. simpl. destruct (active_block ROps g e); reflexivity. }
+  destruct (valid_blocks RC RC_ring d _ modes P Am Hv Hb) as (_ & H1 & H2).
+  split.
+  - exact (embed_symplectic RC RC_ring RC_conj_0 RC_conj_1 RC_conj_add RC_conj_mul RC_conj_conj
+             d modes P Am Hm H1 H2).
+  - exact (embed_real_symplectic RC RC_ring RC_conj_0 RC_conj_1 RC_conj_add RC_conj_mul RC_conj_conj
+             d iiR halfR iiR_sq iiR_conj halfR_two modes P Am Hm H1 H2).
+Qed.
+
+(* ---- the modelled xxpp covariance matrix is symmetric whenever C is Hermitian and G symmetric,
+   hence after every program of valid instructions (sequence theorem) *)
+Lemma covR_symmetric : forall d hbar C G, herm RC d C -> symm RC d G ->
+  forall i j, (i < d + d)%nat -> (j < d + d)%nat -> covR d hbar C G i j = covR d hbar C G j i.
+Proof.
+  intros d hbar C G HC HG i j Hi Hj. unfold covR, xxpp_cov.
+  rewrite !(nth_map_seq _ _ (2 * d)) by lia. unfold cops. fold RC.
+  rewrite (Nat.eqb_sym j i).
+  assert (F : forall a b, (a < d)%nat -> (b < d)%nat ->
+            fst (MomentsModel.get RC C b a) = fst (MomentsModel.get RC C a b) /\
+            snd (MomentsModel.get RC C b a) = Ropp (snd (MomentsModel.get RC C a b)) /\
+            MomentsModel.get RC G b a = MomentsModel.get RC G a b).
+  { intros a b Ha Hb. pose proof (HC a b Ha Hb) as E. pose proof (HG a b Ha Hb) as E2.
+    destruct (MomentsModel.get RC C b a) as [x y]. destruct (MomentsModel.get RC C a b) as [x' y'].
+    unfold RC, CxOps, zconj, cconj in E. cbn in E. inversion E. subst. cbn.
+    repeat split; try ring. exact E2. }
+  destruct (Nat.ltb_spec i d); destruct (Nat.ltb_spec j d).
+  - destruct (F i j) as (F1 & F2 & F3); try assumption. rewrite F3.
+    destruct (MomentsModel.get RC G i j) as [gr gi].
+    destruct (MomentsModel.get RC C j i) as [x y]. destruct (MomentsModel.get RC C i j) as [x' y'].
+    cbn in *. subst. try reflexivity; try ring.
+  - destruct (F i (j - d)%nat) as (F1 & F2 & F3); try lia. rewrite F3.
+    destruct (MomentsModel.get RC G i (j - d)) as [gr gi].
+    destruct (MomentsModel.get RC C (j - d) i) as [x y]. destruct (MomentsModel.get RC C i (j - d)) as [x' y'].
+    cbn in *. subst. try reflexivity; try ring.
+  - destruct (F (i - d)%nat j) as (F1 & F2 & F3); try lia. rewrite F3.
+    destruct (MomentsModel.get RC G (i - d) j) as [gr gi].
+    destruct (MomentsModel.get RC C j (i - d)) as [x y]. destruct (MomentsModel.get RC C (i - d) j) as [x' y'].
+    cbn in *. subst. try reflexivity; try ring.
+  - destruct (F (i - d)%nat (j - d)%nat) as (F1 & F2 & F3); try lia. rewrite F3.
+    destruct (MomentsModel.get RC G (i - d) (j - d)) as [gr gi].
+    destruct (MomentsModel.get RC C (j - d) (i - d)) as [x y].
+    destruct (MomentsModel.get RC C (i - d) (j - d)) as [x' y'].
+    cbn in *. subst. try reflexivity; try ring.
+Qed.
+
+Theorem covariance_symmetric_after_program : forall d (prog : list (@op R)) s hbar,
+  Forall (op_ok d) prog -> herm RC d (st_C s) -> symm RC d (st_G s) ->
+  let s' := run ROps d prog s in
+  forall i j, (i < d + d)%nat -> (j < d + d)%nat ->
+  covR d hbar (st_C s') (st_G s') i j = covR d hbar (st_C s') (st_G s') j i.
+Proof.
+  intros d prog s hbar Hok HC HG s' i j Hi Hj.
+  destruct (gates_sequence_real d prog s Hok HC HG) as (_ & _ & HC' & HG').
+  apply covR_symmetric; assumption.
 Qed.
